@@ -1,6 +1,6 @@
 CHECK = dict(
     level="exploration",
-    level_text="Generated-input search: rapid-drawn raw request lines and header sets sent by a raw TCP client (IPv4 and IPv6 loopback peers) to linkedIPHandler behind a real http.Server with a recording backend, judged by an allow-list predicate on what the backend received (method, documented shape, dot-segment normalisation under RFC 3986 and path.Clean, exact client-IP header, forged-marker detector); the same generator drives shouldProxy directly for a wider path search; a concurrent part releases K=2..8 forwardable requests from pairwise distinct peers into one handler at the same moment (barrier at the handler entry, backend holds each until all K are inside) and checks each request's own client-IP header, method and path, also once under the race detector. Held on N cases is evidence, not proof.",
+    level_text="Generated-input search: rapid-drawn raw request lines and header sets sent by a raw keep-alive TCP client (IPv4 and IPv6 loopback peers; sequences of 1-3 requests per connection in which a follow-up is the previous request with exactly one component changed) to the http.Server that websvc.New builds for a linked_ip bind, with a recording backend, judged by an allow-list predicate on what the backend received (method, documented shape, dot-segment normalisation under RFC 3986 and path.Clean, exact client-IP header, detector for forged forwarding headers: documentation-range markers and echoed empty / zero-address / other-peer values); the same generator drives shouldProxy directly for a wider path search; a concurrent part releases K=2..8 forwardable requests from pairwise distinct peers into one handler at the same moment (barrier at the handler entry, backend holds each until all K are inside) and checks each request's own client-IP header, method and path, also once under the race detector. Held on N cases is evidence, not proof.",
     level_note="Trusts net/http request parsing, net/url, httputil.ReverseProxy's transport and the kernel loopback. A path counts as leaving the prefix only if it does so under every reading the oracle knows (decoded / unreserved-only decoded x RFC 3986 remove_dot_segments / path.Clean); reading-dependent cases (%2F-dependent, slash-merging-dependent) are counted, not judged. Empty placeholder segments are not judged.",
     technique="property-based testing (rapid): raw request lines and forged header sets over real loopback HTTP against a recording backend with an allow-list oracle",
     assumptions=[
@@ -11,8 +11,8 @@ CHECK = dict(
     ],
     units=[
         dict(name="websvc", dir="internal/websvc", src="C19/websvc", runs=[
-            dict(name="wire", run="^TestVerifC19Wire$", quick=30000, thorough=1200000, shards_quick=2, shards_thorough=4),
-            dict(name="concurrent", run="^TestVerifC19Concurrent$", quick=3000, thorough=120000, shards_thorough=2),
+            dict(name="wire", run="^TestVerifC19Wire$", quick=20000, thorough=800000, shards_quick=2, shards_thorough=4),
+            dict(name="concurrent", run="^TestVerifC19Concurrent$", quick=3000, thorough=80000, shards_thorough=2),
             dict(name="concurrent-race", run="^TestVerifC19Concurrent$", quick=300, thorough=6000, race=True),
             dict(name="decide", run="^TestVerifC19Decide$", quick=300000, thorough=6000000, shards_thorough=2),
         ]),
